@@ -247,13 +247,99 @@ func init() {
 		}
 		return term.App("ok", tPrefixes(ps))
 	}
+	// The decode functions are long-lived (one per kind for the whole run, as in a real plugin) and the
+	// prefix slices of the most recent calls are kept: a later call must not change what an earlier call
+	// delivered. A change is reported as `aliased(kind)` in place of the result.
+	type held struct {
+		plain []netip.Prefix
+		addp  []bgp.AddPathPrefix
+		want  string
+	}
+	type pfxDecoder struct {
+		fn     bgp.DecodeFn[*rec]
+		called bool
+		got    T
+		last   held
+		kept   []held
+	}
+	pfxDecoders := map[string]*pfxDecoder{}
+	getPfxDecoder := func(kind string, ap bool) *pfxDecoder {
+		key := fmt.Sprintf("%s/%v", kind, ap)
+		if d, ok := pfxDecoders[key]; ok {
+			return d
+		}
+		d := &pfxDecoder{}
+		plain := func(_ *rec, p []netip.Prefix) error {
+			d.called = true
+			d.got = tPrefixes(p)
+			d.last = held{plain: p, want: d.got.String()}
+			return nil
+		}
+		addp := func(_ *rec, p []bgp.AddPathPrefix) error {
+			d.called = true
+			d.got = tAPPrefixes(p)
+			d.last = held{addp: p, want: d.got.String()}
+			return nil
+		}
+		switch {
+		case kind == "nlri" && ap:
+			d.fn = bgp.NewNLRIAddPathDecodeFn[*rec](addp)
+		case kind == "nlri":
+			d.fn = bgp.NewNLRIDecodeFn[*rec](plain)
+		case ap:
+			d.fn = bgp.NewWithdrawnAddPathRoutesDecodeFn[*rec](addp)
+		default:
+			d.fn = bgp.NewWithdrawnRoutesDecodeFn[*rec](plain)
+		}
+		pfxDecoders[key] = d
+		return d
+	}
 	handlers["pfxfn"] = func(a []T) T {
 		ap, _ := a[1].Bool()
 		b := mustBytes(a[2])
-		var got T
-		called := false
-		plain := func(_ *rec, p []netip.Prefix) error { called = true; got = tPrefixes(p); return nil }
-		addp := func(_ *rec, p []bgp.AddPathPrefix) error { called = true; got = tAPPrefixes(p); return nil }
+		d := getPfxDecoder(a[0].Atom, ap)
+		d.called = false
+		err := d.fn(nil, b)
+		// what earlier calls delivered is still what it was
+		for _, h := range d.kept {
+			now := ""
+			if h.addp != nil {
+				now = tAPPrefixes(h.addp).String()
+			} else {
+				now = tPrefixes(h.plain).String()
+			}
+			if now != h.want {
+				d.kept = nil
+				return term.App("aliased", a[0])
+			}
+		}
+		if err != nil {
+			return term.App("err", tErr(err))
+		}
+		if !d.called {
+			return term.A("notcalled")
+		}
+		if len(d.last.plain)+len(d.last.addp) > 0 {
+			d.kept = append(d.kept, d.last)
+			if len(d.kept) > 4 {
+				d.kept = d.kept[1:]
+			}
+		}
+		return term.App("called", d.got)
+	}
+	// pfxseq kind ap [b1,…,bn]: a fresh long-lived decode function applied to b1..bn in turn; every delivered
+	// slice is canonicalised only after the last call
+	handlers["pfxseq"] = func(a []T) T {
+		ap, _ := a[1].Bool()
+		type res struct {
+			plain  []netip.Prefix
+			addp   []bgp.AddPathPrefix
+			called bool
+			err    error
+		}
+		var cur *res
+		plain := func(_ *rec, p []netip.Prefix) error { cur.called = true; cur.plain = p; return nil }
+		addp := func(_ *rec, p []bgp.AddPathPrefix) error { cur.called = true; cur.addp = p; return nil }
 		var fn bgp.DecodeFn[*rec]
 		switch {
 		case a[0].Atom == "nlri" && ap:
@@ -265,14 +351,26 @@ func init() {
 		default:
 			fn = bgp.NewWithdrawnRoutesDecodeFn[*rec](plain)
 		}
-		err := fn(nil, b)
-		if err != nil {
-			return term.App("err", tErr(err))
+		var all []*res
+		for _, x := range a[2].Args {
+			cur = &res{}
+			cur.err = fn(nil, mustBytes(x))
+			all = append(all, cur)
 		}
-		if !called {
-			return term.A("notcalled")
+		out := make([]T, len(all))
+		for i, r := range all {
+			switch {
+			case r.err != nil:
+				out[i] = term.App("err", tErr(r.err))
+			case !r.called:
+				out[i] = term.A("notcalled")
+			case ap:
+				out[i] = term.App("called", tAPPrefixes(r.addp))
+			default:
+				out[i] = term.App("called", tPrefixes(r.plain))
+			}
 		}
-		return term.App("called", got)
+		return term.L(out...)
 	}
 	handlers["mp6nh"] = func(a []T) T {
 		nhs, err := bgp.DecodeMPReachIPv6NextHops(mustBytes(a[0]))
